@@ -45,6 +45,10 @@ func c11Alphabet() []ref.Sym {
 			out = append(out, ref.Sym{Kind: k}, ref.Sym{Kind: k, Explicit: true})
 		}
 	}
+	// directives written in an included file of their own
+	for _, k := range []string{"GET", "CODE", "Body", "Tags", "TYPE"} {
+		out = append(out, ref.Sym{Kind: k, Via: "include"})
+	}
 	out = append(out, ref.Sym{Close: true})
 	return out
 }
@@ -66,6 +70,8 @@ func c11Render(seq []ref.Sym) (string, []int) {
 	for i, s := range seq {
 		lines[i] = line
 		switch {
+		case s.Via == "include":
+			wl("INCLUDE inc_" + s.Kind + ".jst")
 		case s.Close:
 			wl(")")
 		case s.Kind == "Description":
@@ -96,6 +102,13 @@ func c11Render(seq []ref.Sym) (string, []int) {
 		}
 	}
 	return b.String(), lines
+}
+
+func c11WriteIncludes(dir string) {
+	for _, k := range []string{"GET", "CODE", "Body", "Tags", "TYPE"} {
+		txt, _ := c11Render([]ref.Sym{{Kind: k}})
+		os.WriteFile(filepath.Join(dir, "inc_"+k+".jst"), []byte(txt), 0o644)
+	}
 }
 
 type c11Obs struct {
@@ -175,7 +188,7 @@ func c11Compare(seq []ref.Sym, dir string) (key, what string, outcome string) {
 	}
 	disk := false
 	for _, s := range seq {
-		if s.Kind == "INCLUDE" {
+		if s.Kind == "INCLUDE" || s.Via != "" {
 			disk = true
 		}
 	}
@@ -250,6 +263,9 @@ func c11Compare(seq []ref.Sym, dir string) (key, what string, outcome string) {
 	case ref.IncorrectContext, ref.IncorrectCtxPath:
 		wantMsg = "incorrect context for the directive"
 		wantLine = lines[at]
+		if seq[at].Via != "" {
+			wantLine = 1 // located in the included file
+		}
 	case ref.NothingToClose:
 		wantMsg = "nothing to close with this closing parenthesis"
 		wantLine = lines[at]
@@ -330,6 +346,7 @@ func c11ReducedAlphabet() []ref.Sym {
 		out = append(out, ref.Sym{Kind: k}, ref.Sym{Kind: k, Explicit: true})
 	}
 	out = append(out, ref.Sym{Kind: "GET", HasPath: true}, ref.Sym{Kind: "GET", HasPath: true, Explicit: true}, ref.Sym{Kind: "GET"}, ref.Sym{Kind: "GET", Explicit: true})
+	out = append(out, ref.Sym{Kind: "GET", Via: "include"}, ref.Sym{Kind: "CODE", Via: "include"})
 	return append(out, ref.Sym{Close: true})
 }
 
@@ -349,6 +366,7 @@ func workC11BFS(w *run.W) {
 	dir := workerDir(w)
 	defer os.RemoveAll(dir)
 	os.WriteFile(filepath.Join(dir, "e.jst"), nil, 0o644)
+	c11WriteIncludes(dir)
 	alpha := c11Alphabet()
 	states := c11BFS(alpha, p.MaxStates)
 	maxDepth := 0
@@ -395,6 +413,7 @@ func workC11Seq(w *run.W) {
 	dir := workerDir(w)
 	defer os.RemoveAll(dir)
 	os.WriteFile(filepath.Join(dir, "e.jst"), nil, 0o644)
+	c11WriteIncludes(dir)
 	alpha := c11Alphabet()
 	if p.Reduced {
 		alpha = c11ReducedAlphabet()
@@ -458,7 +477,7 @@ func runC11(c *chk.Ctx) {
 		json.Unmarshal(b[0], &m)
 		c.Cov["bfs"] = m
 	}
-	c.Cov["rule"] = "states = reachable open-context chains of the reference automaton (all of them); from every state every symbol of the alphabet (kind x explicit/implicit x path/no-path, and ')') is executed on the real scanner+context resolution (VerifScanOnly) over text rendered from shortest witness + symbol; verdict, error class, error line, open-context chain and directive tree are compared. Adequacy: all sequences up to length 3 over the full alphabet, and all sequences up to length 5 (thorough 6) over a reduced 19-symbol alphabet, are also run without deduplication (this also exposes state that only the PASTE-expansion pass keeps: for MACRO/PASTE-free sequences the tree rebuilt by that pass must equal the reference tree)."
+	c.Cov["rule"] = "states = reachable open-context chains of the reference automaton (all of them); from every state every symbol of the alphabet (kind x explicit/implicit x path/no-path, and ')') is executed on the real scanner+context resolution (VerifScanOnly) over text rendered from shortest witness + symbol; verdict, error class, error line, open-context chain and directive tree are compared. Adequacy: all sequences up to length 3 over the full alphabet, and all sequences up to length 5 (thorough 6) over a reduced 21-symbol alphabet (which includes directives written in an INCLUDEd file of their own), are also run without deduplication (this also exposes state that only the PASTE-expansion pass keeps: for MACRO/PASTE-free sequences the tree rebuilt by that pass must equal the reference tree)."
 	c.Cov["exhaustive"] = true
 	c.Assumptions = append(c.Assumptions,
 		"reference automaton (internal/ref/context.go) holds a frozen copy of the JSight API 0.3 allowed-context table",
